@@ -20,6 +20,9 @@ type c04case struct {
 	onFollow pub.OnFollowBehavior
 	cb       ap.CallbackMode
 	label    string
+	// keep, if set, is the only activity type for which the application configured a hook (wrapped
+	// or 'other', according to cb): for every other type the default effect must be untouched
+	keep string
 }
 
 type expDelivery struct {
@@ -387,6 +390,29 @@ func c04cases(thorough bool) []c04case {
 			add(typ, Doc(typ, RAct, "actor", Carol, "object", val(objs)), 0)
 		}
 	}
+	// single-hook configurations: the application overrides / wraps exactly one activity type X; an
+	// activity of another type T must get its full default effect (first two bodies of every type)
+	hookNames := []string{"Create", "Update", "Delete", "Follow", "Accept", "Reject", "Add", "Remove", "Like", "Announce", "Undo", "Block"}
+	seenT := map[string]int{}
+	for _, c := range append([]c04case(nil), cs...) {
+		if c.cb != ap.CBNone || seenT[c.typ] >= 2 {
+			continue
+		}
+		if c.typ == "Follow" && c.onFollow == pub.OnFollowDoNothing {
+			continue
+		}
+		seenT[c.typ]++
+		for _, x := range hookNames {
+			if x == c.typ {
+				continue
+			}
+			for _, mode := range []ap.CallbackMode{ap.CBOther, ap.CBWrapped} {
+				k := c
+				k.cb, k.keep = mode, x
+				cs = append(cs, k)
+			}
+		}
+	}
 	add("Undo", Doc("Undo", RAct, "actor", Carol, "object", "https://r1.example/like/1"), 0)
 	add("Block", Doc("Block", RAct, "actor", Carol, "object", Alice), 0)
 	add("Listen", Doc("Listen", RAct, "actor", Carol, "object", RNote), 0)
@@ -397,7 +423,7 @@ func c04cases(thorough bool) []c04case {
 func C04(tier string) int {
 	res := NewResult("C04", tier, "exploration")
 	cases := c04cases(res.Thorough())
-	res.Rule = fmt.Sprintf("each handled inbox activity type with every sequence of 1..%d objects / targets / actors from per-type alphabets (IRI and embedded, owned and foreign, Collection / OrderedCollection / non-collection targets, absent / unordered / ordered likes and shares, missing documents), OnFollow in {nothing, accept, reject}, Follow object in {this actor, another local actor, remote, list, embedded}, x callback configuration {none, wrapped, wrapped failing, 'other' override}: %d requests; a reference model written from the documentation is applied to the initial state and diffed against the real final state; deliveries and callback order are compared too", map[bool]int{false: 2, true: 3}[res.Thorough()], len(cases))
+	res.Rule = fmt.Sprintf("each handled inbox activity type with every sequence of 1..%d objects / targets / actors from per-type alphabets (IRI and embedded, owned and foreign, Collection / OrderedCollection / non-collection targets, absent / unordered / ordered likes and shares, missing documents), OnFollow in {nothing, accept, reject}, Follow object in {this actor, another local actor, remote, list, embedded}, x callback configuration {none, wrapped, wrapped failing, 'other' override}, plus single-hook configurations (exactly one other type X wrapped / overridden, for all 11 X): %d requests; a reference model written from the documentation is applied to the initial state and diffed against the real final state; deliveries and callback order are compared too", map[bool]int{false: 2, true: 3}[res.Thorough()], len(cases))
 	res.Assumptions = []string{"order among several followers added by one Follow is not asserted", "where a later object/target makes the effect fail, the effect on earlier ones (list order) stays, as the code does; the statement does not forbid it",
 		"top-level @context of stored values is not compared (C01)"}
 	var mu sync.Mutex
@@ -416,22 +442,30 @@ func C04(tier string) int {
 		outc := map[string]int{}
 		for _, c := range cases[lo:hi] {
 			c := c
+			cfg := c
 			sc := &Scenario{Name: "c04", Kind: ap.Both, Entry: "PostInbox", URL: inbox(Alice), Body: c.body,
-				Tweak: func(a *ap.App) { c04world(a); a.OnFollow = c.onFollow; a.Callbacks = c.cb }}
+				Tweak: func(a *ap.App) { c04world(a); a.OnFollow = cfg.onFollow; a.Callbacks = cfg.cb; a.CBKeep = cfg.keep }}
 			a := sc.World()
 			ref := RefOf(a)
+			if c.keep != "" && c.keep != c.typ {
+				c.cb = ap.CBNone // the configured hook is for another type: this one is a plain default
+			}
 			fail, dels := modelInbox(ref, a, c)
 			out := sc.On(a, nil)
-			name := fmt.Sprintf("%s cb=%d onFollow=%d body=%s", c.typ, c.cb, c.onFollow, shortJSON(c.body))
+			name := fmt.Sprintf("%s cb=%d keep=%q onFollow=%d body=%s", c.typ, cfg.cb, cfg.keep, c.onFollow, shortJSON(c.body))
 			rep := M{"check": "C04", "type": c.typ, "callbacks": int(c.cb), "on_follow": int(c.onFollow), "body": c.body}
 			if out.Panic != nil {
 				outc["panic(C11)"]++
 				continue
 			}
 			bad := func(kind, what string) {
-				vs = append(vs, viol{fmt.Sprintf("%s|%s|cb=%d", kind, c.typ, c.cb), name + ": " + what, rep})
+				k := fmt.Sprintf("%s|%s|cb=%d", kind, c.typ, c.cb)
+				if cfg.keep != "" {
+					k = fmt.Sprintf("%s|%s|only-hook-for-another-type|mode=%d", kind, c.typ, cfg.cb)
+				}
+				vs = append(vs, viol{k, name + ": " + what, rep})
 			}
-			classes[fmt.Sprintf("%s|%d|%d|%s", c.typ, c.cb, c.onFollow, shortJSON(c.body))] = struct{}{}
+			classes[fmt.Sprintf("%s|%d|%s|%d|%s", c.typ, cfg.cb, cfg.keep, c.onFollow, shortJSON(c.body))] = struct{}{}
 			if fail {
 				outc["model-fails"]++
 			} else {
